@@ -9,6 +9,9 @@ const pluginNameChars = "abcdefghijklmnopqrstuvwxyzABCDEFGHIJKLMNOPQRSTUVWXYZ012
 
 func PluginName(r *rand.Rand) string {
 	n := 1 + r.IntN(10)
+	if r.IntN(40) == 0 {
+		n = 120 + r.IntN(80) // a very long name
+	}
 	var b strings.Builder
 	for i := 0; i < n; i++ {
 		ch := pluginNameChars[r.IntN(len(pluginNameChars))]
@@ -41,6 +44,10 @@ func PluginRef(r *rand.Rand) string {
 	pool := []string{"v1.2.3", "main", "master", "v4", "feature/x", "1.0", "release-2", "a_b", "0", "v1.0.0-beta.1",
 		// refs that are filled in later (matrix tokens, env references) or are not plain ASCII words
 		"refs/tags/v1.2.3", "refs/heads/main", "refs/tags/release/2", "{{matrix.version}}", "{{matrix}}", "{{ matrix.v }}", "${VER}", "$VER", "v{{matrix.major}}.x", "é", "v1 x", "release/{{matrix}}"}
+	if r.IntN(14) == 0 {
+		// a long ref (a generated branch name): 150 to 300 characters
+		return "feature/" + strings.Repeat("long-branch-name_", 9+r.IntN(9)) + parts[0]
+	}
 	if r.IntN(2) == 0 {
 		return pool[r.IntN(len(pool))]
 	}
